@@ -81,6 +81,11 @@ _CLAUSE = {
     'getchan': 'channel lookup used by routing (theorem routing)',
     'msvalidate': 'multistream packet = self-delimited packets of equal duration (theorem ms_packet_structure)',
     'route': 'decode routing (theorem routing)',
+    'mixout': 'int16 output of the mapping-matrix multiply = saturating Q15 multiply-accumulate (theorem matrix_short_saturates); '
+              'the demixing step of projection decode',
+    'mixin': 'int16 input of the mapping-matrix multiply = exact linear combination of the matrix row (exact binary32 domain); '
+             'the mixing step of projection encode (theorem demix_inverts_mix is about these cells)',
+    'ambi': 'ambisonics channel counts (theorem ambisonics_counts)',
 }
 
 
@@ -91,8 +96,10 @@ def classify(ctx, tie, mm):
                 'why': 'sanitizer report / hardening assert while building or using a layout'}
     op = (inp.split(' ') + ['', ''])[1]
     if op not in _CLAUSE:
-        return None          # matrix multiply correspondences: decided by the impulse oracle of the search
+        return None          # isqrt: auxiliary function, no property clause of its own
     i0, m0 = impl.split(' ')[0], model.split(' ')[0]
+    if m0 in ('INEXACT', 'bad-op', 'MODEL-NO-MATRIX'):
+        return None          # the model makes no statement about this input: a broken tie, not a property violation
     if i0 in _REJECT and m0 in _REJECT:
         return None          # both reject, only the error name differs: correspondence broken, not the property
     return {'suite': tie.name, 'input': inp, 'expected': model, 'observed': impl,
